@@ -244,6 +244,27 @@ impl<'a> Debug for UserModel<'a> {
 }
 
 impl<'a> UserModel<'a> {
+    /// Verification hook (only with `--cfg ironcalc_verif`): lengths of the undo stack,
+    /// the redo stack and the outgoing diff queue.
+    #[cfg(ironcalc_verif)]
+    pub fn verif_history_depths(&self) -> (usize, usize, usize) {
+        (
+            self.history.undo_stack.len(),
+            self.history.redo_stack.len(),
+            self.send_queue.len(),
+        )
+    }
+
+    /// Verification hook (only with `--cfg ironcalc_verif`): variant names of the diffs in
+    /// the most recent undo-stack entry (coverage accounting only).
+    #[cfg(ironcalc_verif)]
+    pub fn verif_last_diff_kinds(&self) -> Vec<&'static str> {
+        match self.history.undo_stack.last() {
+            Some(list) => list.iter().map(|d| d.verif_kind_name()).collect(),
+            None => vec![],
+        }
+    }
+
     /// Creates a user model from an existing model
     pub fn from_model(model: Model) -> UserModel {
         UserModel {
